@@ -17,7 +17,7 @@ SCRATCH = os.environ.get("VERIF_SCRATCH", "/var/tmp/thejoker-verif")
 
 EDITS = {
     # id: (properties that must stay green, [(file, old, new), ...])
-    "batch_tasks-reorder-commute": (["C16", "C05"], [
+    "batch_tasks-reorder-commute": (["C16", "C05", "C02", "C14"], [
         ("thejoker/utils.py",
          "        base_batch_size = n_tasks // n_batches\n        rmdr = n_tasks % n_batches\n",
          "        rmdr = n_tasks % n_batches\n        base_batch_size = n_tasks // n_batches\n"),
@@ -53,12 +53,12 @@ EDITS = {
          "    T = data.t.jd.max() - data.t.jd.min()\n    return T / P.to_value(u.day)\n",
          "    t_jd = data.t.jd\n    P_day = P.to_value(u.day)\n    T = t_jd.max() - t_jd.min()\n    return T / P_day\n"),
     ]),
-    "read_batch_idx-hoist": (["C05", "C12"], [
+    "read_batch_idx-hoist": (["C05", "C12", "C02", "C06", "C07", "C01"], [
         ("thejoker/utils.py",
          "    batch = np.zeros((len(idx), len(columns)))\n    with tb.open_file(prior_samples_file, mode=\"r\") as f:\n        for i, name in enumerate(columns):\n            batch[:, i] = f.root[path].read_coordinates(idx, field=name)\n",
          "    n_rows = len(idx)\n    batch = np.zeros((n_rows, len(columns)))\n    with tb.open_file(prior_samples_file, mode=\"r\") as f:\n        node = f.root[path]\n        for i, name in enumerate(columns):\n            batch[:, i] = node.read_coordinates(idx, field=name)\n"),
     ]),
-    "wrap_K-temporaries": (["C17"], [
+    "wrap_K-temporaries": (["C17", "C04"], [
         ("thejoker/samples.py",
          "            self.tbl[\"omega\"][mask] = self.tbl[\"omega\"][mask] + np.pi * u.rad\n            self.tbl[\"omega\"][mask] = self.tbl[\"omega\"][mask] % (2 * np.pi * u.rad)\n",
          "            half_turn = np.pi * u.rad\n            self.tbl[\"omega\"][mask] = half_turn + self.tbl[\"omega\"][mask]\n            self.tbl[\"omega\"][mask] = self.tbl[\"omega\"][mask] % (2 * half_turn)\n"),
@@ -79,7 +79,7 @@ EDITS = {
          "    rv = np.concatenate(rv) * rv_unit\n    err = np.concatenate(err) * rv_unit\n    ids = np.concatenate(ids)\n",
          "    ids = np.concatenate(ids)\n    err = np.concatenate(err) * rv_unit\n    rv = np.concatenate(rv) * rv_unit\n"),
     ]),
-    "tempfile-rename-and-simplify": (["C13", "C05"], [
+    "tempfile-rename-and-simplify": (["C13", "C05", "C02", "C01"], [
         ("thejoker/utils.py",
          "            f = NamedTemporaryFile(mode=\"r+\", suffix=\".hdf5\", delete=False)\n            f.close()\n",
          "            tmp = NamedTemporaryFile(mode=\"r+\", suffix=\".hdf5\", delete=False)\n            tmp.close()\n            f = tmp\n"),
@@ -87,7 +87,7 @@ EDITS = {
          "            except Exception as e:\n                raise e\n            finally:\n",
          "            except Exception:\n                raise\n            finally:\n"),
     ]),
-    "uniformlog-temporaries": (["C09"], [
+    "uniformlog-temporaries": (["C09", "C10"], [
         ("thejoker/distributions.py",
          "        def rng_fn(cls, rng, a, b, size):\n            _fac = np.log(b) - np.log(a)\n            uu = rng.uniform(size=size)\n            return np.exp(uu * _fac + np.log(a))\n\n    uniformlog = UniformLogRV()\n\n    class UniformLog(pm.Continuous):\n        rv_op = uniformlog\n\n        @classmethod\n        def dist(cls, a, b, **kwargs):\n            a = pt.as_tensor_variable(a)\n            b = pt.as_tensor_variable(b)\n            return super().dist([a, b], **kwargs)\n\n        def support_point(rv, size, a, b):\n            a, b = pt.broadcast_arrays(a, b)\n            return 0.5 * (a + b)\n\n        def logp(value, a, b):",
          "        def rng_fn(cls, rng, a, b, size):\n            ln_a = np.log(a)\n            _fac = np.log(b) - ln_a\n            uu = rng.uniform(size=size)\n            return np.exp(ln_a + _fac * uu)\n\n    uniformlog = UniformLogRV()\n\n    class UniformLog(pm.Continuous):\n        rv_op = uniformlog\n\n        @classmethod\n        def dist(cls, a, b, **kwargs):\n            a = pt.as_tensor_variable(a)\n            b = pt.as_tensor_variable(b)\n            return super().dist([a, b], **kwargs)\n\n        def support_point(rv, size, a, b):\n            a, b = pt.broadcast_arrays(a, b)\n            return 0.5 * (a + b)\n\n        def logp(value, a, b):"),
@@ -110,7 +110,7 @@ EDITS = {
          "        return self.__class__(\n            t=self.t.copy(),\n            rv=self.rv.copy(),\n            rv_err=self.rv_err.copy(),\n            t_ref=self.t_ref if self.t_ref is not None else False,\n        )\n",
          "        keep_ref = self.t_ref if self.t_ref is not None else False\n        times = self.t.copy()\n        return self.__class__(\n            rv_err=self.rv_err.copy(),\n            rv=self.rv.copy(),\n            t=times,\n            t_ref=keep_ref,\n        )\n"),
     ]),
-    "run_worker-noop": (["C16", "C10", "C05"], [
+    "run_worker-noop": (["C16", "C10", "C05", "C03", "C14"], [
         ("thejoker/multiproc_helpers.py",
          "        sg = rng.bit_generator._seed_seq.spawn(len(tasks))\n        for i in range(len(tasks)):\n            tasks[i] = tuple(tasks[i]) + (Generator(PCG64(sg[i])),)\n",
          "        n_streams = len(tasks)\n        sg = rng.bit_generator._seed_seq.spawn(n_streams)\n        for i in range(0, n_streams):\n            child = Generator(PCG64(sg[i]))\n            tasks[i] = tuple(tasks[i]) + (child,)\n"),
